@@ -9,6 +9,14 @@ trap 'rm -rf "$S"' EXIT
 rsync -a --exclude _build --exclude .git /repo/ "$S/repo/"
 ( cd "$S/repo" && git init -q . >/dev/null 2>&1 && git apply --whitespace=nowarn "$patch" ) || { echo "PATCH-DOES-NOT-APPLY $patch"; exit 3; }
 out=$(cd "${VERIF_HOME:-/verif}" && VERIF_REPO="$S/repo" VERIF_SCRATCH="$S/out" bin/check "$id" --tier "$tier" 2>&1); rc=$?
+# a check with a T-tie regenerates coq/Gen_<ID>_*.v from VERIF_REPO: restore the files generated from the real tree
+( cd "${VERIF_HOME:-/verif}" && python3 - "$id" <<'PY' >/dev/null 2>&1
+import sys, importlib
+sys.path[:0] = ["tools", "checks"]
+m = importlib.import_module(sys.argv[1])
+if hasattr(m, "regenerate"): m.regenerate()
+PY
+)
 echo "$out" | grep -E "VIOLATION|KNOWN-FINDING|^\[|^  " | head -12
 if [ $rc -ne 0 ] && echo "$out" | grep -q "^VIOLATION property=$id"; then
   if echo "$out" | grep -q "no-failing-input-found"; then echo "RESULT $id $(basename $patch): CAUGHT (no-failing-input-found)"; else echo "RESULT $id $(basename $patch): CAUGHT (failing input)"; fi
